@@ -342,3 +342,16 @@ Example valid_example :
   run (mk_case 3 400 [Chunk 0 100 2 true; Chunk 1 120 3 true; Chunk 0 200 4 false; Chunk 0 200 5 false; Chunk 0 24 6 false]) =
   [0; 1; 100; 0;  0; 0; 0; 0;  0; 1; 200; 0;  0; 2; 400; 0;  10; 0; 0; 0;  -1; 1].
 Proof. split; [unfold valid; cbn [c_mc c_mms c_frames]; repeat split; try reflexivity; lia|vm_compute; reflexivity]. Qed.
+
+(* the hypotheses of the theorems above are satisfiable: limits of 3 chunks / 400 bytes, a state
+   reached after two intermediate chunks, and a chunk that exceeds the byte limit *)
+Example hypotheses_example :
+  let l := mk_lim 3 400 in
+  let s := fst (step_gen true true l (fst (step_gen true true l init (Chunk 0 150 2 false))) (Chunk 0 200 3 false)) in
+  lim_ok l /\ within l (pend s) /\ pend_count (pend s) = 2 /\ pend_bytes (pend s) = 350 /\
+  snd (step_gen true true l s (Chunk 0 60 4 false)) = S_TOO_LARGE.
+Proof.
+  cbn zeta. split; [split; [cbn; lia|right; cbn; lia]|].
+  split; [split; right; vm_compute; discriminate|].
+  repeat split; vm_compute; reflexivity.
+Qed.
